@@ -812,7 +812,12 @@ def abs_shim(x):
     return abs(x)
 
 
+def _realcls(c):
+    return _SHIM2REAL.get(c, c) if not isinstance(c, tuple) else tuple(_realcls(x) for x in c)
+
+
 def isinstance_shim(obj, cls):
+    cls = _realcls(cls)
     if isinstance(obj, SInt):
         t = cls if isinstance(cls, tuple) else (cls,)
         from numbers import Number, Integral, Real
@@ -972,6 +977,10 @@ class SLookup:
                 return self.table[idxs[0]]
         raise IndexError('list index out of range')
 
+
+_SHIM2REAL = {bytes_shim: bytes, bytearray_shim: bytearray, int_shim: int, float_shim: float, srange: range}
+
+BUILTIN_SHIMS = ('bytearray', 'bytes', 'range', 'int', 'float', 'round', 'isinstance', 'divmod', 'sum')
 
 STANDARD = {
     'struct': struct_shim, 'array': array_shim, 'bytearray': bytearray_shim, 'bytes': bytes_shim,
